@@ -195,7 +195,9 @@ def o_mutant(rec: Recorder, case, soft=False):
             field = set(alnum + "+/")
         else:
             field = set(alnum + "./")
-        if cls not in ("letter-case", "int-decoration", "base64-lenient", "mssql2000-unused-half") and set(mm) <= field and set(hm) <= field and mm.lower() != hm.lower() \
+        lenient_b64 = name in ("cta_pbkdf2_sha1", "atlassian_pbkdf2_sha1", "django_pbkdf2_sha1", "django_pbkdf2_sha256", "fshp", "ldap_md5", "ldap_sha1", "ldap_salted_md5",
+                               "ldap_salted_sha1", "ldap_salted_sha256", "ldap_salted_sha512", "scrypt")  # stdlib decoder ignores junk and anything after '=' padding
+        if not lenient_b64 and cls not in ("letter-case", "int-decoration", "base64-lenient", "mssql2000-unused-half") and set(mm) <= field and set(hm) <= field and mm.lower() != hm.lower() \
                 and not (len(mm) == len(hm) == 1) and not (name == "django_des_crypt" and mtext.startswith("crypt$$")):  # documented elided-salt form
             rec.fail(f"C08/altered-field-accepted/{name}", f"{name}: a hash with a textually altered field ({hm!r} -> {mm!r}) is normalised back and verifies the original password ({label})",
                      "mutant", case, short(mtext, 200), short(hs, 200), soft=soft)
